@@ -12,14 +12,14 @@ def sh(cmd, cwd, env=None, timeout=900):
 
 def main():
     only = sys.argv[1:] 
-    for out in sorted(glob.glob('/tmp/seed/C*-out')) + sorted(glob.glob('/tmp/seed/C*-out2')):
-        rnd2 = out.endswith('-out2')
+    for out in sorted(glob.glob('/tmp/seed/C*-out')) + sorted(glob.glob('/tmp/seed/C*-out2')) + sorted(glob.glob('/tmp/seed/C*-out3')):
+        off = 2 if out.endswith('-out2') else 4 if out.endswith('-out3') else 0
         pid = os.path.basename(out)[:3]
         wt = '/tmp/seed/' + pid
         for n in (1, 2):
             if not os.path.exists(f'{out}/meta{n}.json') or not os.path.exists(f'{out}/patch{n}.diff'):
                 continue
-            name = f'{pid}-{n + 2 if rnd2 else n}'
+            name = f'{pid}-{n + off}'
             if os.path.exists(f'/verif/seeded/{name}/meta.json') and not only:
                 continue
             if only and name not in only and pid not in only:
